@@ -3,6 +3,7 @@ package props
 import (
 	"fmt"
 	"math/rand"
+	"runtime"
 
 	"verif/harness/evid"
 	"verif/harness/oracle"
@@ -212,7 +213,12 @@ func slashWire(run *evid.Run, cfg Cfg, kind string) {
 	}
 }
 
+// procsMix is cycled through by the workloads that send batches: with few scheduler threads one worker handles
+// several entries of a batch, with many each entry has its own worker.
+var procsMix = []int{16, 1, 2, 16, 3, 5, 16, 1}
+
 func slashLoop(run *evid.Run, r *rand.Rand, kind string, env *Env, histories, steps int, pickVia func() Via, freshKeys func() bool, restart func() error) {
+	defer runtime.GOMAXPROCS(runtime.GOMAXPROCS(0))
 	roots := [][]byte{Root32(0xaa), Root32(0xbb)}
 	doms := map[string][][]byte{
 		"att":  {Dom(DomainAttester, 0), Dom(DomainAttester, 7)},
@@ -223,6 +229,8 @@ func slashLoop(run *evid.Run, r *rand.Rand, kind string, env *Env, histories, st
 			break
 		}
 		via := pickVia()
+		// The number of scheduler threads decides how batches are partitioned over workers.
+		runtime.GOMAXPROCS(procsMix[h%len(procsMix)])
 		wm := make([]oracle.WM, 4)
 		env.wm = wm
 		env.profile = "dense"
